@@ -598,6 +598,10 @@ int main(int argc, char **argv) {
     s2.name += "-O2";
     s2.rule = "[library objects built with plain -O2, no sanitizer] " + s2.rule;
     subs.push_back(s2);
+    Sub s3 = subs[i];
+    s3.name += "-LTO";
+    s3.rule = "[library objects built with -O2 -flto: optimised as one unit at link time, no sanitizer] " + s3.rule;
+    subs.push_back(s3);
   }
   return pbt_main(argc, argv, subs);
 }
